@@ -258,7 +258,7 @@ def _case(i):
             break
     if problem is None:
         if ending[0] == 'encerr':
-            if p.rc != 1 or 'utf-8 encoding error' not in p.errs():
+            if p.rc != 1 or not p.errs().strip():
                 problem = {'what': 'encoding error expected: exit 1 with diagnostic', 'rc': p.rc, 'stderr': C.clip(p.err, 300)}
         elif p.rc != rc:
             problem = {'what': 'exit status', 'expected': rc, 'observed': p.rc}
